@@ -147,9 +147,15 @@ func (c *Core) onEnter(s *Sim, e *simrt.Event) {
 			if prev.Pos >= q.Pos {
 				break
 			}
-			if prev.Rec.Op == "extended" && prev.Rec.ExtName == oidStartTLS && !prev.Corrupt && prev.entered > 0 && prev.exited == 0 {
+			// a request under any other name that the StartTLS route served
+			// is a StartTLS request in the server's own eyes
+			near := prev.Rec.Op == "extended" && prev.Rec.ExtName != oidStartTLS && prev.entered > 0 && prev.route >= 0 && prev.route < len(c.Cfg.Routes) &&
+				c.Cfg.Routes[prev.route].Kind == "extended" && c.Cfg.Routes[prev.route].ExtName == oidStartTLS
+			if prev.Rec.Op == "extended" && (prev.Rec.ExtName == oidStartTLS || near) && !prev.Corrupt && prev.entered > 0 && prev.exited == 0 {
 				where := "plain"
-				if !prev.Script.StartTLS {
+				if near {
+					where = "name-close-to-starttls-served-by-the-starttls-route"
+				} else if !prev.Script.StartTLS {
 					where = "inside-tunnel"
 				}
 				s.Violate("C13", "own", "later-request-dispatched-while-starttls-handler-runs "+where, fmt.Sprintf("%s: m=%d (%s, frame %d) entered its handler at step %d; the handler of the StartTLS request m=%d (frame %d) entered at step %d and has not returned", cl.name(), e.Msg, q.Rec.Op, q.Pos, e.Step, prev.Rec.MsgID, prev.Pos, prev.enterStep))
